@@ -802,8 +802,28 @@ def fnum(v):
     return "nan" if v != v else v
 
 
+def second_case(case):
+    """the input of the SECOND select() call on the same selector object (key `again`: another
+    target, optionally other data under the same column names)"""
+    c2 = {k: v for k, v in case.items() if k != "again"}
+    c2.update(case["again"])
+    return c2
+
+
 def run_selector(case):
-    """select() + the observable tables of the implementation"""
+    """select() + the observable tables of the implementation; with `again`: a second select() on
+    the SAME object with another input, and a fresh selector on that second input"""
+    out, sel = run_selector_on(case, None)
+    if case.get("again") is not None and sel is not None:
+        c2 = second_case(case)
+        out2, _ = run_selector_on(c2, sel)
+        fresh, _ = run_selector_on(c2, None, observe=False)
+        out2["fresh_sel"], out2["fresh_err"] = fresh["sel"], fresh["err"]
+        out["again"] = out2
+    return out
+
+
+def run_selector_on(case, sel, observe=True):
     from AutoCarver.selectors.base_selector import apply_measures
     from AutoCarver.selectors.measures import cramerv_measure, tschuprowt_measure
 
@@ -811,10 +831,10 @@ def run_selector(case):
     X0, y0 = X.copy(deep=True), y.copy(deep=True)
     out = {"sel": None, "err": None, "order": None, "table": {}, "pairs": {}, "unchanged": True}
     try:
-        sel = make_selector(case)
+        sel = make_selector(case) if sel is None else sel
     except AssertionError:
         out["err"] = "assert"
-        return out
+        return out, None
     out["order"] = {k: list(v) for k, v in sel.input_dtypes.items()}
     undo = None
     if case.get("colsample") is not None:
@@ -852,7 +872,7 @@ def run_selector(case):
         undo()
     out["unchanged"] = bool(frames_equal(X, X0) and frames_equal(y, y0))
     # observable tables (same functions select() uses, fresh frames)
-    for dtype in ("float", "str"):
+    for dtype in (("float", "str") if observe else ()):
         ms, fs, feats = case_lists(case, dtype)
         if not feats:
             continue
@@ -883,7 +903,7 @@ def run_selector(case):
             except Exception as e:  # noqa: BLE001
                 prs[k] = f"{type(e).__name__}"
         out["pairs"][dtype] = prs
-    return out
+    return out, sel
 
 
 def table_mismatch(case, tabs, out):
@@ -1219,6 +1239,27 @@ def gen_inf_case(rng):
                    None, rng.choice([None, ["spearman"], []]), None, kw)
 
 
+def add_second_call(rng, case):
+    """the same selector OBJECT selects a second time: an independent second target (2/3 of the
+    cases) or other data under the same column names and another target (1/3)"""
+    n, task = case["n"], case["task"]
+    y2 = gen_y(rng, n, task)
+    ag = {"y": encs(y2)}
+    if rng.random() < 0.34:
+        quanti = gen_quanti(rng, n, y2, len(case["quanti"]))
+        quali = gen_quali(rng, n, y2, len(case["quali"]), allow_nan=False)
+        if case["qm"] and "zscore" in case["qm"]:
+            for c in quanti:
+                obs = [i for i, v in enumerate(c) if not isnan(v)]
+                if len(obs) == 1:
+                    c[(obs[0] + 1) % len(c)] = c[obs[0]]
+        ag["quanti"] = [[nm, encs(c)] for (nm, _), c in zip(case["quanti"], quanti)]
+        ag["quali"] = [[nm, encs(c)] for (nm, _), c in zip(case["quali"], quali)]
+    case = dict(case)
+    case["again"] = ag
+    return case
+
+
 def gen_boundary_case(rng):
     """associations exactly equal to thresh_corr without a tie of the ranking measure: a
     qualitative feature and a coarsening of it (Cramer's V = 1), a quantitative feature and its
@@ -1529,7 +1570,8 @@ class C14(Prop):
         n = 300 if tier == "quick" else 4000
         nb = 30 if tier == "quick" else 300
         ns = 20 if tier == "quick" else 200
-        return ([gen_case(rng) for _ in range(n)] + [gen_boundary_case(rng) for _ in range(nb)]
+        return ([add_second_call(rng, gen_case(rng)) if i % 6 == 0 else gen_case(rng) for i in range(n)]
+                + [gen_boundary_case(rng) for _ in range(nb)]
                 + [gen_two_measure_case(rng) for _ in range(ns)]
                 + [gen_quali_filter_case(rng) for _ in range(ns)]
                 + [gen_iqr_case(rng) for _ in range(ns)]
@@ -1537,7 +1579,8 @@ class C14(Prop):
                 + [gen_inf_case(rng) for _ in range(12 if tier == "quick" else 120)])
 
     def search_cases(self, rng, neighbours, rnd):
-        return [gen_case(rng) for _ in range(60)] + [gen_two_measure_case(rng) for _ in range(10)]
+        return ([add_second_call(rng, gen_case(rng)) if i % 4 == 0 else gen_case(rng) for i in range(60)]
+                + [gen_two_measure_case(rng) for _ in range(10)])
 
     # ---- implementation ---------------------------------------------------------------------
     def run_impl(self, case):
@@ -1545,6 +1588,21 @@ class C14(Prop):
 
     # ---- predicate ------------------------------------------------------------------------------
     def analyse(self, case, out):
+        """first call, and (cases with `again`) the second call on the same selector object"""
+        tabs, fails = self.analyse_one(case, out)
+        o2 = out.get("again") if isinstance(out, dict) else None
+        if o2 is not None:
+            c2 = second_case(case)
+            tabs2, fails2 = self.analyse_one(c2, o2)
+            fails = fails + [(tag, d, "second select() on the same object: " + m) for tag, d, m in fails2]
+            same = (o2["sel"], o2["err"]) == (o2.get("fresh_sel"), o2.get("fresh_err"))
+            if not same and not ties_present(tabs2) and not any(t["fragile"] for t in tabs2.values()):
+                fails.insert(0, ("state", "-", f"the second select() on the same selector object returns "
+                                             f"{o2['err'] or o2['sel']}, a fresh selector on the same input "
+                                             f"returns {o2.get('fresh_err') or o2.get('fresh_sel')}"))
+        return tabs, fails
+
+    def analyse_one(self, case, out):
         tabs = build_tables(case, out)
         fails = []
         if not out["unchanged"]:
@@ -1569,7 +1627,16 @@ class C14(Prop):
 
     def classify(self, case, out):
         """failure -> signature of a known root cause, or None"""
-        tabs, fails = self.analyse(case, out)
+        res = self.classify_one(case, out)
+        o2 = out.get("again") if isinstance(out, dict) else None
+        if o2 is not None:
+            res = res + self.classify_one(second_case(case), o2)
+            if any(tag == "state" for tag, _, _ in self.analyse(case, out)[1]):
+                res.append(None)  # state kept between two select() calls: never a known finding
+        return res
+
+    def classify_one(self, case, out):
+        tabs, fails = self.analyse_one(case, out)
         res = []
         for tag, d, m in fails:
             sig = None
@@ -1619,13 +1686,22 @@ class C14(Prop):
         return sorted(set(sigs))
 
     # ---- Coq side ---------------------------------------------------------------------------
+    @staticmethod
+    def coq_calls(c, o):
+        """the select() calls of a case, in order (one, or two on the same object)"""
+        calls = [coq_case(c, o, build_tables(c, o))]
+        if isinstance(o, dict) and o.get("again") is not None:
+            c2 = second_case(c)
+            calls.append(coq_case(c2, o["again"], build_tables(c2, o["again"])))
+        return C.clist(calls)
+
     def coq_shards(self, cases, outs):
         shards = []
         for part in chunks(list(zip(cases, outs)), 40):
-            body = ";\n  ".join(coq_case(c, o, build_tables(c, o)) for c, o in part)
+            body = ";\n  ".join(self.coq_calls(c, o) for c, o in part)
             shards.append("From AC.Model Require Import Base Selector CheckC14.\n"
-                          f"Definition cases : list c14case := [\n  {body}\n].\n"
-                          "Eval vm_compute in map verdict cases.\n")
+                          f"Definition cases : list (list c14case) := [\n  {body}\n].\n"
+                          "Eval vm_compute in map verdict_seq cases.\n")
         return shards
 
     # ---- evidence ---------------------------------------------------------------------------
@@ -1684,6 +1760,9 @@ class C14(Prop):
                         break
                     cand = dict(c)
                     cand[key] = c[key][:i] + c[key][i + 1:]
+                    if c.get("again") is not None and key in c["again"]:
+                        cand["again"] = dict(c["again"])
+                        cand["again"][key] = c["again"][key][:i] + c["again"][key][i + 1:]
                     nf = len(cand["quanti"]) + len(cand["quali"])
                     cand["n_best"] = min(c["n_best"], nf + 1)
                     r = still(cand)
@@ -1705,6 +1784,15 @@ class C14(Prop):
                     cand["y"] = [c["y"][i] for i in keep]
                     cand["quanti"] = [[nm, [col[i] for i in keep]] for nm, col in c["quanti"]]
                     cand["quali"] = [[nm, [col[i] for i in keep]] for nm, col in c["quali"]]
+                    if c.get("again") is not None:
+                        ag = dict(c["again"])
+                        ag["y"] = [ag["y"][i] for i in keep]
+                        for key in ("quanti", "quali"):
+                            if key in ag:
+                                ag[key] = [[nm, [col[i] for i in keep]] for nm, col in ag[key]]
+                        if len({str(v) for v in ag["y"]}) < 2:
+                            continue
+                        cand["again"] = ag
                     if len({str(v) for v in cand["y"]}) < 2:
                         continue
                     r = still(cand)
